@@ -1092,7 +1092,9 @@ def _list_decorators() -> Dict[str, Callable[[_FN], _FN]]:
 
     def remove(fn):
         def remove(self, value, _sa_initiator=None):
-            __del(self, value, _sa_initiator, NO_KEY)
+            # testlib.pragma exempt:__eq__
+            if value in self:
+                __del(self, value, _sa_initiator, NO_KEY)
             # testlib.pragma exempt:__eq__
             fn(self, value)
 
